@@ -96,8 +96,8 @@ def main() -> int:
              ("helpers-go-vs-python", work_helper, ["getMask", "smartShift", "getNbitsToCopy", "min", "Bool2byte", "Byte2bool"])]
     meta = {
         "functions_encoded": goenc.GO_FILES + ["lib/py/bitprotolib/bp.py"],
-        "bounds": "F_shape (+seeded random tail) and a slice of F_grid in Go standard mode: Encode() == specified bytes (== Python, C01), Decode() of the specified bytes == the values (sign-extended), Size() == ceil(N/8), struct fields hold their leaves (a Go type that is too small or of the wrong signedness is reported); helpers getMask / smartShift / getNbitsToCopy / min / Bool2byte / Byte2bool equal the Python helpers for all k in 0..7, c in 0..8, byte n, shift -7..7, 0 <= j < n <= 64, 0 <= i < 2^31 (Go's 64-bit wrap-around excluded by equality with Python's unbounded result)",
-        "outside_claim": "`smallest covering Go type` when the declared type is LARGER than needed (no behavioural difference); String()/encoding-json; everything is interpreter-only: there is no Go toolchain, a Go counterexample is re-run concretely through the same interpreter and compared with the reference/Python",
+        "bounds": "F_shape (+seeded random tail) and a slice of F_grid in Go standard mode: Encode() == specified bytes (== Python, C01), Decode() of the specified bytes == the values (sign-extended), Size() == ceil(N/8), every struct field is declared with exactly the smallest covering Go integer type of the right signedness (value-independent); helpers getMask / smartShift / getNbitsToCopy / min / Bool2byte / Byte2bool equal the Python helpers for all k in 0..7, c in 0..8, byte n, shift -7..7, 0 <= j < n <= 64, 0 <= i < 2^31 (Go's 64-bit wrap-around excluded by equality with Python's unbounded result)",
+        "outside_claim": "String()/encoding-json; the JSON tags; everything is interpreter-only: there is no Go toolchain, a Go counterexample is re-run concretely through the same interpreter and compared with the reference/Python",
         "explanation": "behavioural equivalence subsumes the structural clauses that matter for the wire: a wrong case label, index depth, conversion type, missing or superfluous sign extension, wrong field number, width, capacity or extensible flag changes some byte for some value and is found as a model",
     }
     return run_parts(PROP, "translation_validation", parts, meta, ["z3 decides QF_BV", "my Go-subset interpreter implements the Go spec for the constructs executed (validated only against the reference/Python on extreme values; fails closed on anything outside the subset)"])
